@@ -3,6 +3,7 @@ package checks
 import (
 	"fmt"
 	"strings"
+	"sync/atomic"
 
 	cose "github.com/veraison/go-cose"
 
@@ -106,9 +107,18 @@ type c09codec struct {
 	clear  func(v any)
 }
 
+// clearMode selects how the caller discards raw bytes: 0 = nil, 1 = empty non-nil slice, 2 = re-sliced to length 0.
+var clearMode atomic.Int32
+
 func clearHeaders(h *cose.Headers) {
-	h.RawProtected = nil
-	h.RawUnprotected = nil
+	switch clearMode.Add(1) % 3 {
+	case 0:
+		h.RawProtected, h.RawUnprotected = nil, nil
+	case 1:
+		h.RawProtected, h.RawUnprotected = []byte{}, []byte{}
+	default:
+		h.RawProtected, h.RawUnprotected = h.RawProtected[:0], h.RawUnprotected[:0]
+	}
 	for _, l := range []int64{7, 11} {
 		switch v := h.Unprotected[l].(type) {
 		case *cose.Countersignature:
